@@ -152,3 +152,39 @@ func (n *Node) DrawSpec(t *rapid.T, o GenOpts, flags map[string]bool) Spec {
 	}
 	return s
 }
+
+// BuildTieBreakSibling builds a valid sibling of the current tip (same height, parent and maxHeightPrevoted, different
+// content) generated by the owner of the current wall-clock slot: the block LIP-0014's tie break prefers when the tip
+// was received outside its own slot. ok=false when the slot owner is the tip's generator or the tip is the genesis.
+func (n *Node) BuildTieBreakSibling(salt uint32) (*blockchain.Block, bool) {
+	tip := n.Tip()
+	if tip.Header.Height == n.Cfg.GenesisHeight {
+		return nil, false
+	}
+	parent, err := n.Chain.DataAccess().GetBlockHeaderByHeight(tip.Header.Height - 1)
+	if err != nil {
+		return nil, false
+	}
+	k, err := n.GeneratorAt(tip.Header.Height, n.Cfg.SlotsBehind)
+	if err != nil || bytes.Equal(k.Addr, tip.Header.GeneratorAddress) {
+		return nil, false
+	}
+	sib := CloneBlock(tip)
+	sib.Transactions = []*blockchain.Transaction{}
+	sib.Header.TransactionRoot = blockchain.BlockAssets{}.GetRoot()
+	sc := Script{Salt: salt}
+	if orig := ScriptOf(tip.Assets); orig.Next != nil {
+		sc.Next = orig.Next // the validators hash must keep matching the execution result
+	}
+	sib.Assets = blockchain.BlockAssets{ScriptAsset(sc)}
+	sib.Header.AssetRoot = blockchain.BlockAssets(sib.Assets).GetRoot()
+	evs := ExpectedEvents(sib.Header.Height, sib.Assets, nil)
+	sib.Header.EventRoot, _ = blockchain.CalculateEventRoot(evs)
+	sib.Header.StateRoot = NextStateRoot(parent.StateRoot, sib.Header.Height, sib.Assets, nil)
+	sib.Header.Timestamp = n.Slot.GetSlotTime(n.Cfg.SlotsBehind) + 1
+	sib.Header.GeneratorAddress = k.Addr
+	// honest maxHeightGenerated of the slot owner on this chain (the tip is by somebody else)
+	sib.Header.MaxHeightGenerated = n.LastGeneratedHeight(k.Addr)
+	Resign(sib, k)
+	return sib, true
+}
